@@ -479,7 +479,11 @@ def formats_in(fv, root=None):
             ft = decode_arguments(fv, n)
             if ft is not None:
                 out.append((n, ft))
-    return out
+    # a format whose text only ever becomes the leading part of another format of this function (a hoisted path
+    # prefix: `let prefix = format!("{}/part_{}_chunk_", ..); format!("{}{}", prefix, chunk)`) is not a template of its own
+    def spliced_prefix(a, b):
+        return a is not b and len(a[1]) < len(b[1]) and b[1][:len(a[1])] == a[1] and b[2][:len(a[2])] == a[2]
+    return [(n, ft) for n, ft in out if not any(spliced_prefix(ft, other) for _, other in out)]
 
 
 def number_format_rule(ctx, rule, fv, who, root, norm_term, expect_norm_only=False):
